@@ -115,7 +115,7 @@ def _ints(a):
     return [int(x) for x in a]
 
 
-def obs_tree(ts, t, inv, full=True):
+def obs_tree(ts, t, inv, full=True, variadic=False):
     """Everything the public Tree API says about tree t (JSON-able, no floats except
     through the exact inverse lattice)."""
     import tskit
@@ -211,6 +211,40 @@ def obs_tree(ts, t, inv, full=True):
         o["leaves"][str(u)] = _ints(t.leaves(u))
         o["samples"][str(u)] = _ints(t.samples(u))
     o["path_length"] = None
+    if not variadic:
+        return o
+    # variadic / multi-form query API
+    import random as _random
+    rr = _random.Random(1000003 * N + int(t.index))
+    pool = list(range(N + 1)) + [N + 1, -1]
+    tuples = [(0,), (V,)]
+    if N <= 3:
+        tuples += [(a, b, c) for a in pool for b in pool for c in pool]
+    else:
+        tuples += [tuple(rr.choice(pool) for _ in range(3)) for _ in range(90)]
+        real = list(range(N + 1))
+        tuples += [tuple(rr.choice(real) for _ in range(3)) for _ in range(60)]
+    tuples += [tuple(rr.choice(pool) for _ in range(4)) for _ in range(40)]
+    tuples += [tuple(rr.choice(range(N + 1)) for _ in range(rr.choice([4, 5]))) for _ in range(30)]
+
+    def fval(x):
+        x = float(x)
+        return int(x) if x == x and abs(x) != math.inf and x == int(x) else repr(x)
+
+    def call(f, *a):
+        try:
+            return fval(f(*a))
+        except Exception as e:
+            return type(e).__name__
+    o["variadic"] = [[list(a), call(t.mrca, *a), call(t.tmrca, *a)] for a in tuples]
+    rng_ids = list(range(N + 2)) + [-1]
+    o["pairq"] = [[u, v, call(t.mrca, u, v), call(t.tmrca, u, v), call(t.path_length, u, v),
+                   call(t.distance_between, u, v), call(t.is_descendant, u, v)]
+                  for u in rng_ids for v in rng_ids]
+    o["oob"] = [[nm, call(getattr(t, nm), N + 1), call(getattr(t, nm), -2)]
+                for nm in ("parent", "children", "depth", "time", "branch_length", "num_samples",
+                           "num_tracked_samples", "left_child", "right_sib", "is_leaf", "is_sample",
+                           "num_children", "edge")]
     return o
 
 
@@ -263,7 +297,7 @@ def observe_views(case):
     paths = {}
     want = case["paths"]
     if "trees" in want:
-        paths["trees"] = [obs_tree(ts, t, inv) for t in ts.trees(**kw)]
+        paths["trees"] = [obs_tree(ts, t, inv, variadic=True) for t in ts.trees(**kw)]
     if "trees_core" in want:
         paths["trees"] = [obs_tree(ts, t, inv, full=False) for t in ts.trees(**kw)]
     if "reversed" in want:
@@ -273,7 +307,7 @@ def observe_views(case):
     if "first" in want:
         paths["first"] = [obs_tree(ts, ts.first(**kw), inv)]
     if "last" in want:
-        paths["last"] = [obs_tree(ts, ts.last(**kw), inv)]
+        paths["last"] = [obs_tree(ts, ts.last(**kw), inv, variadic=True)]
     if "at_index" in want:
         n = ts.num_trees
         paths["at_index"] = [obs_tree(ts, ts.at_index(k, **kw), inv) for k in range(n)]
@@ -631,6 +665,85 @@ def check_tree(desc, case, o, tsobs, F, label):
                 F("mrca", "%s: mrca(%d,%d)=%d, by definition %d" % (label, u, v, o["mrca"][u][v], m))
             if o["is_descendant"][u][v] != (v in cu):
                 F("is_descendant", "%s: is_descendant(%d,%d)=%r" % (label, u, v, o["is_descendant"][u][v]))
+    # -- variadic mrca / tmrca (the fold over the arguments, stopping only when there is no
+    #    common ancestor), path_length, distance_between, bounds errors
+    def chain_of(u):
+        return [u] + (spec.anc[u] if u < N else [])
+
+    def pair_mrca(u, v):
+        if not (0 <= u <= N and 0 <= v <= N):
+            raise ValueError
+        if u == V or v == V:
+            return V
+        cv = set(chain_of(v))
+        return next((a for a in chain_of(u) if a in cv), NULL)
+
+    def fold_mrca(args):
+        if len(args) < 2:
+            raise ValueError
+        m = args[0]
+        for x in args[1:]:
+            m = pair_mrca(m, x)
+            if m == NULL:
+                break
+        return m
+
+    def tm(u):
+        return math.inf if u == V else float(spec.time[u])
+
+    def enc(x):
+        x = float(x)
+        return int(x) if x == x and abs(x) != math.inf and x == int(x) else repr(x)
+
+    def exp_call(f):
+        try:
+            return enc(f())
+        except ValueError:
+            return "ValueError"
+
+    def spec_tmrca(args):
+        m = fold_mrca(args)
+        if m == NULL:
+            raise ValueError
+        return tm(m)
+
+    def dep(u):
+        return -1 if u == V else len(spec.anc[u])
+    for args, gm, gt in o.get("variadic", []):
+        em = exp_call(lambda: fold_mrca(args))
+        et = exp_call(lambda: spec_tmrca(args))
+        if gm != em:
+            F("mrca-variadic", "%s: mrca%r = %r, by definition %r" % (label, tuple(args), gm, em))
+        if gt != et:
+            F("tmrca-variadic", "%s: tmrca%r = %r, by definition %r" % (label, tuple(args), gt, et))
+        # for real nodes the fold is the lowest common element of all ancestor chains
+        if all(0 <= a < N for a in args) and len(args) >= 2:
+            common = [a for a in chain_of(args[0]) if all(a in chain_of(b) for b in args[1:])]
+            if em != (common[0] if common else NULL):
+                F("oracle-self-check", "fold != set LCA for %r" % (args,))
+
+    def spec_path_length(u, v):
+        m = pair_mrca(u, v)
+        return math.inf if m == NULL else dep(u) + dep(v) - 2 * dep(m)
+
+    def spec_distance(u, v):
+        t_ = spec_tmrca((u, v))
+        return t_ - tm(u) + t_ - tm(v)
+
+    def spec_isdesc(u, v):
+        if not (0 <= u <= N and 0 <= v <= N):
+            raise ValueError
+        return v in chain_of(u)
+    for u, v, g1, g2, g3, g4, g5 in o.get("pairq", []):
+        exp = [exp_call(lambda: pair_mrca(u, v)), exp_call(lambda: spec_tmrca((u, v))),
+               exp_call(lambda: spec_path_length(u, v)), exp_call(lambda: spec_distance(u, v)),
+               exp_call(lambda: spec_isdesc(u, v))]
+        for nm, g, e in zip(("mrca", "tmrca", "path_length", "distance_between", "is_descendant"), [g1, g2, g3, g4, g5], exp):
+            if g != e:
+                F("pair-" + nm, "%s: %s(%d,%d) = %r, by definition %r" % (label, nm, u, v, g, e))
+    for nm, a, b in o.get("oob", []):
+        if a != "ValueError" or b != "ValueError":
+            F("bounds-" + nm, "%s: %s on an out-of-range node id: %r / %r" % (label, nm, a, b))
     # -- traversals: (a) set + ordering predicate from the definition, (b) exact agreement
     #    with the naive recursion over the observed left-to-right child order
     kl = {u: kids_ord[u] for u in range(N + 1)}
@@ -1397,7 +1510,9 @@ def observe_pyviews(case):
     esets = []
     for e in ts.edgesets():
         esets += [[inv[float(e.left)], inv[float(e.right)], int(e.parent)], _ints(e.children)]
-    return {"edges": edges, "obs": [dl(), dl(include_terminal=True)] + trees, "edgesets": esets}
+    margs = case.get("mrca_args") or []
+    mres = [[int(t.mrca(*a)) for a in margs] for t in ts.trees(**kw)]
+    return {"edges": edges, "obs": [dl(), dl(include_terminal=True)] + trees, "edgesets": esets, "mrca": mres}
 
 
 class PyViewsBase(SweepBase):
@@ -1414,8 +1529,12 @@ class PyViewsBase(SweepBase):
         ns = "[" + "; ".join("mkNode %s %s" % (cbool(nd[0] & 1), cz(nd[1])) for nd in desc["nodes"]) + "]"
         es = "[" + "; ".join("mkEdge %s %s %s %s" % tuple(cz(x) for x in e) for e in obs["edges"]) + "]"
         o = "(mkOpts %s %s %s)" % (cz(case["thr"]), cbool(case["sample_lists"]), clist(case.get("tracked") or []))
-        return ("res_eqb zlll_eqb (model_pyviews %s %s %s %s) %s && res_eqb zll_eqb (model_edgesets %s %s %s) %s"
+        term = ("res_eqb zlll_eqb (model_pyviews %s %s %s %s) %s && res_eqb zll_eqb (model_edgesets %s %s %s) %s"
                 % (cz(2 * desc["L"]), ns, es, o, clll(obs["obs"]), cz(2 * desc["L"]), ns, es, cll(obs["edgesets"])))
+        if case.get("mrca_args"):
+            term += " && res_eqb zll_eqb (model_mrca %s %s %s %s %s) %s" % (
+                cz(2 * desc["L"]), ns, es, o, cll(case["mrca_args"]), cll(obs["mrca"]))
+        return term
 
     def describe(self, case, obs):
         d = case["desc"]
@@ -1437,7 +1556,8 @@ class PyViewsTiny(PyViewsBase):
             rng.shuffle(edges)
             desc = mk_desc(L, tv, flags, edges, scale=rng.choice([1, 0.5, 1 / 3]))
             yield {"desc": desc, "sample_lists": rng.random() < 0.6, "thr": rng.choice([1, 1, 2, 3]),
-                   "tracked": None, "queries": False}
+                   "tracked": None, "queries": False,
+                   "mrca_args": [[rng.randrange(n + 1) for _ in range(rng.choice([2, 3, 3, 4]))] for _ in range(10)]}
 
 
 class PyViewsRand(PyViewsBase):
@@ -1454,6 +1574,8 @@ class PyViewsRand(PyViewsBase):
             case = dict(rand_opts(rng, desc), desc=desc)
             case["tracked"] = None
             case["queries"] = False
+            nn = len(desc["nodes"])
+            case["mrca_args"] = [[rng.randrange(nn + 1) for _ in range(rng.choice([2, 3, 3, 4]))] for _ in range(10)]
             yield case
 
 
